@@ -107,8 +107,8 @@ func genC05(t *rapid.T) *C05Case {
 				c.Env[o.EnvKey] = ""
 			}
 		}
-		// INI entries
-		if rapid.IntRange(0, 2).Draw(t, "hasIni") == 0 {
+		// INI entries (not for callbacks: their calls are compared as one log)
+		if !o.Kind.IsFunc() && rapid.IntRange(0, 2).Draw(t, "hasIni") == 0 {
 			k := 1
 			if o.Kind.IsMulti() || o.Kind == KBoolSlice {
 				k = rapid.IntRange(1, 3).Draw(t, "nini")
@@ -250,10 +250,46 @@ func c05Oracle(c *C05Case) string {
 	if perr != nil {
 		return fmt.Sprintf("mode %s: ParseArgs %q failed: %v (env %v)", c.Mode, c.Args, perr, c.Env)
 	}
+	// callbacks: called for the command line's occurrences or else once per value
+	// of the highest-ranked lower source - never for both
+	iniCallsCallback := false
+	for _, l := range c.Lines {
+		scope, _ := iniScope(c.D, l.Section)
+		if o := iniResolve(scope, l.Key); o != nil && o.Kind.IsFunc() {
+			iniCallsCallback = true // (an entry meant for another option of the same field name)
+		}
+	}
+	if iniCallsCallback {
+		st.Label("skip: an INI entry addresses a callback")
+		return ""
+	}
+	if !c.FaultyTail && !iniCallsCallback {
+		for _, o := range c.D.AllOpts() {
+			if !o.Kind.IsFunc() {
+				continue
+			}
+			var got, want []CbEntry
+			for _, e := range b.CbLog {
+				if e.Opt == o.ID {
+					got = append(got, e)
+				}
+			}
+			for _, e := range ref.CbLog {
+				if e.Opt == o.ID {
+					want = append(want, e)
+				}
+			}
+			// given on the command line: exactly those calls, none for the
+			// lower-ranked env variable or default tags
+			if fmt.Sprint(got) != fmt.Sprint(want) {
+				return fmt.Sprintf("mode %s: callback %s (%s, highest-ranked source %q): calls %v, expected %v\n args %q\n env %v", c.Mode, o.ID, o.Display(), ref.Sources[o.ID], got, want, c.Args, c.Env)
+			}
+		}
+	}
 	var iniKept, iniLost []string
 	for _, o := range c.D.AllOpts() {
 		want, ok := ref.Vals[o.ID]
-		if !ok {
+		if !ok || o.Kind.IsFunc() {
 			continue
 		}
 		got := b.OptVal[o.ID].Interface()
